@@ -87,16 +87,16 @@ theorem C13_messages_in_order (shape : Shape) (out : MD) (ss : List SOp) (fin : 
 Unimplemented, from `NewStream` and from `Invoke`, for any service description. -/
 theorem C13_unknown_method (d : ServiceDesc) (method : String) (cs ss : Bool)
     (hm : Conn.findMethod d method = none) (hs : Conn.findStream d method = none) :
-    Conn.newStream d method cs ss = .unimplemented ∧ Conn.invoke d method = .unimplemented := by
+    Conn.newStream d none method cs ss = .unimplemented ∧ Conn.invoke d none method = .unimplemented := by
   simp [Conn.newStream, Conn.invoke, hm, hs]
 
 /-- **Shape mismatch.** A known stream opened with a stream description whose flags differ gives
 Internal; a unary method opened through `NewStream` with any streaming flag set gives Internal. -/
 theorem C13_shape_mismatch (d : ServiceDesc) (method : String) (cs ss : Bool) :
     (∀ s, Conn.findStream d method = some s → (s.serverStreams ≠ ss ∨ s.clientStreams ≠ cs) →
-      Conn.newStream d method cs ss = .internal) ∧
+      Conn.newStream d none method cs ss = .internal) ∧
     (∀ m, Conn.findStream d method = none → Conn.findMethod d method = some m → (ss = true ∨ cs = true) →
-      Conn.newStream d method cs ss = .internal) := by
+      Conn.newStream d none method cs ss = .internal) := by
   constructor
   · intro s hs hne
     simp only [Conn.newStream, hs]
@@ -110,8 +110,14 @@ theorem C13_shape_mismatch (d : ServiceDesc) (method : String) (cs ss : Bool) :
 /-- **Matching shape opens** (the converse: no false Internal). -/
 theorem C13_matching_opens (d : ServiceDesc) (method : String) (s : StreamDesc)
     (hs : Conn.findStream d method = some s) :
-    Conn.newStream d method s.clientStreams s.serverStreams = .ok := by
+    Conn.newStream d none method s.clientStreams s.serverStreams = .ok := by
   simp [Conn.newStream, hs]
+
+/-- **Ended context.** A call opened on a context that was already cancelled or had already expired
+fails as such (Canceled / DeadlineExceeded, as over gRPC), whatever the method, and no handler runs. -/
+theorem C13_ended_context (d : ServiceDesc) (a : Abort) (method : String) (cs ss : Bool) :
+    Conn.newStream d (some a) method cs ss = .ctxEnded a ∧ Conn.invoke d (some a) method = .ctxEnded a := by
+  simp [Conn.newStream, Conn.invoke]
 
 /-- The four methods of TestApi (and the unary method through NewStream) open under their own shape. -/
 theorem C13_testapi_opens (shape : Shape) : Wrap.open shape = .ok := by
